@@ -97,6 +97,12 @@ fn usage() -> ! {
 
 fn main() {
     let args: Vec<String> = std::env::args().collect();
+    if args.len() == 4 && args[1] == "digest" {
+        install_panic_hook();
+        let cur: Box<dyn Subject> = if std::env::var("PFV_SUBJECT").as_deref() == Ok("reference") { Box::new(Refb) } else { Box::new(Cur) };
+        pfvcore::props_c14::digest_main(&*cur, &args[2], &args[3]);
+        return;
+    }
     if args.len() < 4 || args[1] != "run" {
         usage();
     }
@@ -131,6 +137,11 @@ fn main() {
         i += 2;
     }
     let out = out.unwrap_or_else(|| usage());
+    if engine.as_deref() == Some("aggregate") {
+        // an aggregate judgement is replayed by running the whole check again
+        engine = None;
+        index = None;
+    }
     let threads = threads.clamp(1, MAX_THREADS);
 
     // the library prints to stdout for loglevel > 0 (parse_zip_stream always passes 1)
@@ -215,6 +226,7 @@ fn main() {
         }
     }
     progress.stop.store(true, std::sync::atomic::Ordering::Relaxed);
+    pfvcore::props::finalize(&property, &mut total);
 
     let mut engines = serde_json::Map::new();
     for (k, e) in &total.engines {
